@@ -150,21 +150,43 @@ _EMIT_RE = {}
 
 
 def parse_emits(out, tag="EMIT"):
-    """Lines printed by PrintT(<<tag, ToJson(x)>>) -> list of decoded JSON values."""
+    """Lines printed by PrintT(<<tag, ToJson(x)>>) -> list of decoded JSON values.
+
+    TLC prints the tuple on one line (`<<"TAG", "...">>`) unless its pretty printer manages to
+    parse the string, in which case it wraps it (`<< "TAG",\n   "..." >>`); both forms are accepted."""
     rx = _EMIT_RE.get(tag)
     if rx is None:
-        rx = _EMIT_RE[tag] = re.compile(r'^<<"' + re.escape(tag) + r'", "(.*)">>$')
+        rx = _EMIT_RE[tag] = (re.compile(r'^<<"' + re.escape(tag) + r'", "(.*)">>$'),
+                              re.compile(r'^<< "' + re.escape(tag) + r'",\s*$'))
     res = []
-    for line in out.splitlines():
-        m = rx.match(line)
-        if not m:
-            continue
-        inner = m.group(1)
-        try:
-            s = json.loads('"' + inner + '"')
-            res.append(json.loads(s))
-        except Exception as ex:  # pragma: no cover
-            raise ToolError("cannot decode emitted line: %r (%s)" % (line[:200], ex))
+    lines = out.splitlines()
+    i = 0
+    while i < len(lines):
+        line = lines[i]
+        m = rx[0].match(line)
+        inner = None
+        if m:
+            inner = m.group(1)
+        elif rx[1].match(line):
+            # wrapped form: collect until the closing " >>"
+            buf = []
+            i += 1
+            while i < len(lines):
+                buf.append(lines[i].strip())
+                if lines[i].rstrip().endswith(">>"):
+                    break
+                i += 1
+            joined = "".join(buf)
+            mm = re.match(r'^"(.*)"\s*>>$', joined)
+            if mm:
+                inner = mm.group(1)
+        if inner is not None:
+            try:
+                s = json.loads('"' + inner + '"')
+                res.append(json.loads(s))
+            except Exception as ex:  # pragma: no cover
+                raise ToolError("cannot decode emitted line: %r (%s)" % (line[:200], ex))
+        i += 1
     return res
 
 
@@ -346,6 +368,12 @@ class Check:
                 print("VIOLATION property=%s replay=%s" % (self.pid, path))
                 log("  kind=%s sig=%s" % (rec["kind"], json.dumps(rec["sig"], sort_keys=True)[:400]))
             log("[%s] %d violating cases (first %d written)" % (self.pid, len(self.violations), min(len(seen), self.max_report)))
+            cnt = {}
+            for rec in self.violations:
+                k = json.dumps(rec["sig"], sort_keys=True)
+                cnt[k] = cnt.get(k, 0) + 1
+            for k, n in sorted(cnt.items(), key=lambda kv: -kv[1])[:25]:
+                log("    %6d  %s" % (n, k[:300]))
             return 1
         log("[%s] ok: states=%d transitions=%d validated=%d nontrivial=%d wall=%.1fs" % (
             self.pid, self.states, self.transitions, self.validated, len(self.nontrivial), wall))
